@@ -36,6 +36,39 @@ CHECKS["C18"] = dict(
     technique="Coq proof about the bucketing arithmetic + vm_compute correspondence executed under 8 time zones + cross-zone falsifier",
     design="5/C18")
 
+CHECKS["C11"] = dict(
+    text="Theorems over the model of CandlestickType.conversion/HeikinAshi for every NumOps instance (hence for the binary64 instance the "
+         "correspondence executes): converting raw candles yields the HA recurrence of the property text, tags all, keeps raw values in "
+         "clean_values and clears readings; convert(convert xs ++ ys) = convert(xs ++ ys) for any xs incl. empty/singleton (each candle "
+         "converted exactly once, any append schedule on the base timeframe); conversion of candle i depends on candles <= i only; a raw "
+         "candle merged into a converted bucket is merged into its raw values; the pre-repair resume index (finding F4) is refuted. "
+         "Correspondence: manager with HA, with/without timeframe and fill, states compared bit for bit incl. clean values and tags.",
+    note="The composed statement 'manager with timeframe + HA under appends = convert(resample(stream))' is not yet a single theorem: "
+         "its three ingredients (C03_recollapse, C11_merge_recovers_raw, C11_incremental/prefix_stable) are proved, their composition is "
+         "covered by correspondence + falsifier. Axioms: none.",
+    technique="Coq proof (induction over the conversion loop, resume-index lemmas) + vm_compute correspondence + falsifier",
+    design="5/C11")
+CHECKS["C12"] = dict(
+    text="Theorems over the model of fill_missing_candles for every payload type: whenever it returns, the output is the input with every "
+         "gap filled by candles exactly one timeframe apart built from their predecessor (inductive relation Filled), hence contiguous, "
+         "real buckets preserved in order, inserted candles flat at the predecessor's raw close with volume 0 and no readings; on every "
+         "stream with non-decreasing timestamps collapse-then-fill returns (the Python loop's only non-termination case, a list that is "
+         "not strictly increasing on the grid, is unreachable). Correspondence and falsifier as for C03 with fill on, incl. schedule "
+         "independence against a batch twin (with and without Heikin-Ashi).",
+    note="Schedule independence of collapse+fill under appends is decided by correspondence + falsifier, not yet by a theorem "
+         "(C03_recollapse covers the collapse half). Axioms: none.",
+    technique="Coq proof (inductive fill relation) + vm_compute correspondence + falsifier",
+    design="5/C12")
+CHECKS["C15"] = dict(
+    text="Clause 1 proved: trim_candles on a time-ordered list = filter (ts >= newest - lifespan), the newest candle always survives, and "
+         "after every construction/append of a manager the retained candles are exactly that window of the collapsed (and filled) "
+         "candles. Correspondence: manager with lifespan, all timeframe/fill variants; falsifier compares with an untrimmed twin fed the "
+         "same schedule after every append.",
+    note="Clause 2 (readings unchanged while the look-back is retained) is decided by the falsifier against an untrimmed twin (added with "
+         "the indicator engine); no theorem yet. Axioms: none.",
+    technique="Coq proof (drop-while = filter on sorted lists) + vm_compute correspondence + falsifier",
+    design="5/C15")
+
 NOT_YET = {}
 
 
